@@ -1,3 +1,275 @@
 import StepModel.GenFiles
+/-!
+# C17 — the build-time scanner predicts exactly the files the C++ generator writes
+
+All statements are about `GenFiles.Scanner` (schemaScanner.cc) and `GenFiles.Cxx` (exp2cxx) whose case lists, names and
+formats are regenerated from the source (`Generated.Scanner`).  No bound on the number of schemas or declarations.
+-/
 namespace StepModel.Props.C17
+open StepModel.GenFiles StepModel.Generated.Scanner
+
+/-! ## which types get files: finite table, per-declaration lemma, lifted to lists -/
+
+/-- The two independently coded rules agree on every (body kind, has-head) a TYPE declaration can have. -/
+theorem C17_type_table :
+    ∀ k ∈ definedTypeKinds, ∀ h : Bool, Scanner.listsKind k h = Cxx.createsKind k h := by decide
+
+/-- … and they do *not* agree outside that domain: for instance a TYPE whose body were an entity (rejected today
+    by libexpress, PE061) would be listed by the scanner and never written by exp2cxx.  This is the drift the
+    property talks about; the hypothesis of the theorems below is needed. -/
+theorem C17_table_outside_domain_witness :
+    ∃ k h, k ∉ definedTypeKinds ∧ Scanner.listsKind k h = true ∧ Cxx.createsKind k h = false :=
+  ⟨.entity_, false, by decide, by decide, by decide⟩
+
+theorem C17_type_decl (t : TypeDecl) (h : t.kind ∈ definedTypeKinds) :
+    Scanner.listsType t = Cxx.typeCreates t :=
+  C17_type_table t.kind h t.hasHead
+
+/-- per schema: the scanner lists the per-type files of exactly the types exp2cxx calls `TYPEPrint` for, in the
+    same order -/
+theorem C17_type_lists (s : Schema) (wf : s.wf) :
+    s.types.filter Scanner.listsType = s.types.filter Cxx.typeCreates := by
+  apply List.filter_congr
+  intro t ht
+  exact C17_type_decl t (wf t ht)
+
+/-! ## string facts about the fixed per-schema names -/
+
+theorem snprintf_id (n : Nat) (x : String) (h : x.length < n) : Cxx.snprintfN n x = x := by
+  unfold Cxx.snprintfN
+  rw [List.take_of_length_le (by rw [String.length_toList]; omega), String.ofList_toList]
+
+theorem lib_name (x : String) :
+    String.ofList ((x ++ ".h").toList.take ((x ++ ".h").length - 1)) ++ "cc" = x ++ ".cc" := by
+  have h1 : (x ++ ".h").toList = (x.toList ++ ['.']) ++ ['h'] := by
+    rw [String.toList_append]; simp
+  have e2 : (".h" : String).length = 2 := by decide
+  have h2 : (x ++ ".h").length - 1 = (x.toList ++ ['.']).length := by
+    rw [String.length_append, e2, List.length_append, String.length_toList]; simp
+  rw [h1, h2, List.take_left' rfl, String.ofList_append, String.ofList_toList, String.append_assoc]
+  rfl
+
+theorem mem_pairs {α : Type} (l : List α) (f g : α → String) (x : String) :
+    (x ∈ l.map f ∨ x ∈ l.map g) ↔ x ∈ l.flatMap (fun a => [f a, g a]) := by
+  simp only [List.mem_map, List.mem_flatMap, List.mem_cons, List.not_mem_nil, or_false]
+  constructor
+  · rintro (⟨a, ha, rfl⟩ | ⟨a, ha, rfl⟩)
+    · exact ⟨a, ha, Or.inl rfl⟩
+    · exact ⟨a, ha, Or.inr rfl⟩
+  · rintro ⟨a, ha, (rfl | rfl)⟩
+    · exact Or.inl ⟨a, ha, rfl⟩
+    · exact Or.inr ⟨a, ha, rfl⟩
+
+/-- the longest per-schema file name fits `MAX_LEN - 1` characters (`SCHEMAprint` builds the names with
+    `snprintf(…, MAX_LEN, …)` into `char[MAX_LEN+1]` buffers) -/
+def Schema.namesFit (s : Schema) : Prop :=
+  (schemaFilePrefix ++ strToUpper s.name ++ ".init.cc").length < maxLen
+
+/-- `SCHEMAprint(schema, …, 0)` without truncation: the names it creates -/
+theorem pass0 (s : Schema) (fit : Schema.namesFit s) :
+    Cxx.schemaPass s 0 = some
+      { inc := schemaFilePrefix ++ strToUpper s.name ++ ".h",
+        lib := schemaFilePrefix ++ strToUpper s.name ++ ".cc",
+        names := schemaFilePrefix ++ strToUpper s.name ++ "Names.h",
+        init := some (schemaFilePrefix ++ strToUpper s.name ++ ".init.cc"),
+        unityEntImpl := schemaFilePrefix ++ strToUpper s.name ++ "_unity_" ++ "entities.cc",
+        unityEntHdr := Cxx.ccToH (schemaFilePrefix ++ strToUpper s.name ++ "_unity_" ++ "entities.cc"),
+        unityTypeImpl := schemaFilePrefix ++ strToUpper s.name ++ "_unity_" ++ "types.cc",
+        unityTypeHdr := Cxx.ccToH (schemaFilePrefix ++ strToUpper s.name ++ "_unity_" ++ "types.cc") } := by
+  unfold Schema.namesFit at fit
+  have e8 : (".init.cc" : String).length = 8 := by decide
+  have e7 : ("Names.h" : String).length = 7 := by decide
+  have e2 : (".h" : String).length = 2 := by decide
+  rw [String.length_append, e8] at fit
+  have f0 : (schemaFilePrefix ++ strToUpper s.name).length < maxLen := by omega
+  have f1 : (schemaFilePrefix ++ strToUpper s.name ++ ".h").length < maxLen := by
+    rw [String.length_append, e2]; omega
+  have f2 : (schemaFilePrefix ++ strToUpper s.name ++ "Names.h").length < maxLen := by
+    rw [String.length_append, e7]; omega
+  have f3 : (schemaFilePrefix ++ strToUpper s.name ++ ".init.cc").length < maxLen := by
+    rw [String.length_append, e8]; omega
+  unfold Cxx.schemaPass
+  have hno : ¬ (schemaFilePrefix ++ strToUpper s.name).length > maxLen := by omega
+  simp only [hno, if_false, beq_self_eq_true, if_true, Nat.zero_le]
+  rw [snprintf_id _ _ f0, snprintf_id _ _ f1, snprintf_id _ _ f2, snprintf_id _ _ f3, lib_name]
+
+/-! ## the headline: same file set, for every schema -/
+
+/-- For every schema with well-formed type bodies whose names fit the buffers, printed by exp2cxx in one pass
+    (suffix 0): a file name is mentioned in the CMakeLists.txt the scanner writes **iff** it is one of the files
+    exp2cxx creates that a build has to know about (everything it creates except the two unity headers, which are
+    only `#include`d by the listed unity sources). -/
+theorem C17_same_files (path : String) (s : Schema) (wf : s.wf) (fit : Schema.namesFit s) :
+    ∃ p, Cxx.schemaPass s 0 = some p ∧
+      ∀ x, x ∈ (Scanner.cmake path s).listed ↔
+           x ∈ fixedFiles ++ p.listedPart ++ Cxx.typeFiles s ++ Cxx.entityFiles s := by
+  refine ⟨_, pass0 s fit, ?_⟩
+  intro x
+  have ht := C17_type_lists s wf
+  have hE := mem_pairs s.entities entityHeader entityImpl x
+  have hT := mem_pairs (s.types.filter Cxx.typeCreates) typeHeader typeImpl x
+  have u1 : "Sdai" ++ strToUpper s.name ++ "_unity_" ++ "entities.cc" = "Sdai" ++ strToUpper s.name ++ "_unity_entities.cc" := by
+    rw [String.append_assoc (s₂ := "_unity_")]; rfl
+  have u2 : "Sdai" ++ strToUpper s.name ++ "_unity_" ++ "types.cc" = "Sdai" ++ strToUpper s.name ++ "_unity_types.cc" := by
+    rw [String.append_assoc (s₂ := "_unity_")]; rfl
+  simp only [Scanner.CMake.listed, Scanner.cmake, Cxx.PassFiles.listedPart, Cxx.typeFiles, Cxx.entityFiles, ht,
+    miscHdrs, miscImpls, unityEntityImpl, unityTypeImpl, fixedFiles, schemaFilePrefix, Option.toList, List.mem_append,
+    List.mem_cons, List.not_mem_nil, or_false, ← hE, ← hT, u1, u2]
+  grind
+
+/-! ## every schema of a file -/
+
+theorem allSome_map {α β : Type} (l : List α) (g : α → Option β) (h : α → β) (e : ∀ a ∈ l, g a = some (h a)) :
+    Cxx.allSome (l.map g) = some (l.map h) := by
+  induction l with
+  | nil => rfl
+  | cons a r ih =>
+    have ea := e a List.mem_cons_self
+    have er := ih (fun x hx => e x (List.mem_cons_of_mem _ hx))
+    simp [List.map_cons, ea, Cxx.allSome, er]
+
+/-- the files of one schema printed in one untruncated pass (names as in `pass0`) -/
+def files0 (s : Schema) : List String :=
+  [schemaFilePrefix ++ strToUpper s.name ++ ".h", schemaFilePrefix ++ strToUpper s.name ++ ".cc",
+   schemaFilePrefix ++ strToUpper s.name ++ "Names.h", schemaFilePrefix ++ strToUpper s.name ++ ".init.cc",
+   schemaFilePrefix ++ strToUpper s.name ++ "_unity_" ++ "entities.cc",
+   schemaFilePrefix ++ strToUpper s.name ++ "_unity_" ++ "types.cc"] ++ Cxx.typeFiles s ++ Cxx.entityFiles s ++
+  [Cxx.ccToH (schemaFilePrefix ++ strToUpper s.name ++ "_unity_" ++ "entities.cc"),
+   Cxx.ccToH (schemaFilePrefix ++ strToUpper s.name ++ "_unity_" ++ "types.cc")]
+
+theorem schemaAll0 (s : Schema) (fit : Schema.namesFit s) : Cxx.schemaAll s [0] = some (files0 s) := by
+  simp [Cxx.schemaAll, Cxx.allSome, pass0 s fit, files0, Cxx.PassFiles.listedPart, Cxx.PassFiles.includedOnly]
+
+/-- File level, any number of schemas, each printed in one pass: everything any CMakeLists.txt lists is created,
+    and everything created is listed by the CMakeLists.txt of its schema or is one of that schema's two unity
+    headers (the `.h` twins of the listed unity sources). -/
+theorem C17_file (f : SchemaFile) (wf : ∀ s ∈ f.schemas, s.wf) (fit : ∀ s ∈ f.schemas, Schema.namesFit s)
+    (ne : f.schemas ≠ []) :
+    ∃ l, Cxx.created f (fun _ => [0]) = some l ∧
+      (∀ s ∈ f.schemas, ∀ x ∈ (Scanner.cmake f.path s).listed, x ∈ l) ∧
+      (∀ x ∈ l, ∃ s ∈ f.schemas, x ∈ (Scanner.cmake f.path s).listed ∨
+          x = Cxx.ccToH (Scanner.cmake f.path s).unityEntityImpl ∨ x = Cxx.ccToH (Scanner.cmake f.path s).unityTypeImpl) := by
+  have hall := allSome_map f.schemas (fun s => Cxx.schemaAll s [0]) files0 (fun s hs => schemaAll0 s (fit s hs))
+  refine ⟨fixedFiles ++ (f.schemas.map files0).flatten, by simp [Cxx.created, hall], ?_, ?_⟩
+  · intro s hs x hx
+    obtain ⟨p, hp, hsame⟩ := C17_same_files f.path s (wf s hs) (fit s hs)
+    rw [pass0 s (fit s hs)] at hp
+    have hp' := Option.some.inj hp
+    subst hp'
+    have hx' := (hsame x).mp hx
+    simp only [List.mem_append, List.mem_flatten, List.mem_map]
+    simp only [List.mem_append] at hx'
+    rcases hx' with ((hx' | hx') | hx') | hx'
+    · exact Or.inl hx'
+    · refine Or.inr ⟨files0 s, ⟨s, hs, rfl⟩, ?_⟩
+      simp only [Cxx.PassFiles.listedPart, Option.toList] at hx'
+      simp only [files0, List.mem_append]
+      exact Or.inl (Or.inl (Or.inl (by simpa using hx')))
+    · refine Or.inr ⟨files0 s, ⟨s, hs, rfl⟩, ?_⟩
+      simp only [files0, List.mem_append]
+      exact Or.inl (Or.inl (Or.inr hx'))
+    · refine Or.inr ⟨files0 s, ⟨s, hs, rfl⟩, ?_⟩
+      simp only [files0, List.mem_append]
+      exact Or.inl (Or.inr hx')
+  · intro x hx
+    simp only [List.mem_append, List.mem_flatten, List.mem_map] at hx
+    rcases hx with hx | ⟨l, ⟨s, hs, rfl⟩, hx⟩
+    · obtain ⟨s, hs⟩ := List.exists_mem_of_ne_nil _ ne
+      obtain ⟨p, _, hsame⟩ := C17_same_files f.path s (wf s hs) (fit s hs)
+      exact ⟨s, hs, Or.inl ((hsame x).mpr (by simp [hx]))⟩
+    · obtain ⟨p, hp, hsame⟩ := C17_same_files f.path s (wf s hs) (fit s hs)
+      rw [pass0 s (fit s hs)] at hp
+      have hp' := Option.some.inj hp
+      subst hp'
+      simp only [files0, List.mem_append] at hx
+      have u1 : schemaFilePrefix ++ strToUpper s.name ++ "_unity_" ++ "entities.cc" = (Scanner.cmake f.path s).unityEntityImpl := by
+        simp only [Scanner.cmake, unityEntityImpl, schemaFilePrefix]; rw [String.append_assoc (s₂ := "_unity_")]; rfl
+      have u2 : schemaFilePrefix ++ strToUpper s.name ++ "_unity_" ++ "types.cc" = (Scanner.cmake f.path s).unityTypeImpl := by
+        simp only [Scanner.cmake, unityTypeImpl, schemaFilePrefix]; rw [String.append_assoc (s₂ := "_unity_")]; rfl
+      rcases hx with ((hx | hx) | hx) | hx
+      · refine ⟨s, hs, Or.inl ((hsame x).mpr ?_)⟩
+        simp only [List.mem_append, Cxx.PassFiles.listedPart, Option.toList]
+        refine Or.inl (Or.inl (Or.inr ?_))
+        simp only [List.mem_cons, List.not_mem_nil, or_false] at hx ⊢
+        grind
+      · exact ⟨s, hs, Or.inl ((hsame x).mpr (by simp only [List.mem_append]; exact Or.inl (Or.inr hx)))⟩
+      · exact ⟨s, hs, Or.inl ((hsame x).mpr (by simp only [List.mem_append]; exact Or.inr hx))⟩
+      · refine ⟨s, hs, Or.inr ?_⟩
+        rw [← u1, ← u2]
+        simpa using hx
+
+/-! ## directory / library name -/
+
+/-- If the scanner's short name of every schema is `sdai_<schema name>` (the case when the schema name is shorter than
+    the file's base name and than its `data/` directory), distinct schemas get distinct build directories,
+    PROJECT()/library names and CMakeLists.txt files. -/
+theorem C17_dirs_distinct_partial (f : SchemaFile)
+    (hshort : ∀ s ∈ f.schemas, Scanner.makeShortName f.path s.name = "sdai_" ++ s.name)
+    (hnames : (f.schemas.map (·.name)).Nodup) :
+    (Scanner.run f).2.Nodup := by
+  have : (Scanner.run f).2 = f.schemas.map (fun s => Scanner.makeShortName f.path s.name) := by
+    simp [Scanner.run, Scanner.cmake, List.map_map, Function.comp_def]
+  rw [this]
+  generalize f.schemas = ss at hshort hnames
+  induction ss with
+  | nil => exact List.nodup_nil
+  | cons a r ih =>
+    simp only [List.map_cons, List.nodup_cons] at hnames ⊢
+    refine ⟨?_, ih (fun s hs => hshort s (List.mem_cons_of_mem _ hs)) hnames.2⟩
+    intro hmem
+    obtain ⟨b, hb, e⟩ := List.mem_map.mp hmem
+    rw [hshort a List.mem_cons_self, hshort b (List.mem_cons_of_mem _ hb)] at e
+    have : b.name = a.name := by
+      have := congrArg String.toList e
+      simp only [String.toList_append] at this
+      exact String.toList_inj.mp (List.append_cancel_left this)
+    exact hnames.1 (List.mem_map.mpr ⟨b, hb, this⟩)
+
+/-- The full statement fails on the current code — two schemas in a file whose base name is shorter than both schema
+    names get the *same* directory: the second CMakeLists.txt replaces the first, the directory is printed twice.
+    (Replayed on the real scanner by checks/c17.py, input `two-schemas-short-file-name`.) -/
+theorem C17_dir_collision_witness :
+    let f : SchemaFile := { path := "/w/ms.exp", schemas := [{ name := "first_schema", decls := [.entity { name := "ea" }] },
+                                                              { name := "second_schema", decls := [.entity { name := "eb" }] }] }
+    (Scanner.run f).2 = ["sdai_ms", "sdai_ms"] ∧ (Scanner.run f).1.map (fun p => (p.1, p.2.schemaName)) = [("sdai_ms", "second_schema")] := by
+  decide
+
+/-- A schema that multpass.c prints in two passes (suffixes 1 and 2) gets `Sdai<S>_1.h … Sdai<S>_2.cc`; the scanner
+    lists `Sdai<S>.h`, which is then never created.  (Replayed: input `mutually-dependent-schemas`.) -/
+theorem C17_multipass_witness :
+    let s : Schema := { name := "aa", decls := [.entity { name := "ea", foreign := true }] }
+    "SdaiAA.h" ∈ (Scanner.cmake "/w/file_name.exp" s).listed ∧
+    (Cxx.schemaAll s [1, 2]).map (fun l => l.contains "SdaiAA.h" || !l.contains "SdaiAA_1.h") = some false := by
+  decide
+
+/-- Whenever `Sdai<NAME>Names.h` does not fit MAX_LEN-1 characters (schema names of 229 characters and more),
+    exp2cxx's name for that file is cut by `snprintf(…, MAX_LEN, …)` and differs from the name the scanner lists.
+    (Replayed on the real programs: input `schema-name-232-chars`.) -/
+theorem C17_truncation_witness (path : String) (s : Schema)
+    (h1 : (schemaFilePrefix ++ strToUpper s.name).length ≤ maxLen)
+    (h2 : maxLen ≤ (schemaFilePrefix ++ strToUpper s.name ++ "Names.h").length) :
+    "Sdai" ++ strToUpper s.name ++ "Names.h" ∈ (Scanner.cmake path s).listed ∧
+    (Cxx.schemaPass s 0).map (·.names) = some (Cxx.snprintfN maxLen (schemaFilePrefix ++ strToUpper s.name ++ "Names.h")) ∧
+    (Cxx.snprintfN maxLen (schemaFilePrefix ++ strToUpper s.name ++ "Names.h")).length = maxLen - 1 ∧
+    Cxx.snprintfN maxLen (schemaFilePrefix ++ strToUpper s.name ++ "Names.h") ≠ "Sdai" ++ strToUpper s.name ++ "Names.h" := by
+  constructor
+  · simp [Scanner.CMake.listed, Scanner.cmake, miscHdrs]
+  · have hno : ¬ (schemaFilePrefix ++ strToUpper s.name).length > maxLen := by omega
+    have hl : (Cxx.snprintfN maxLen (schemaFilePrefix ++ strToUpper s.name ++ "Names.h")).length = maxLen - 1 := by
+      unfold Cxx.snprintfN
+      rw [String.length_ofList, List.length_take, String.length_toList]
+      omega
+    refine ⟨by simp only [Cxx.schemaPass, hno, if_false, Option.map], hl, ?_⟩
+    intro e
+    have := congrArg String.length e
+    rw [hl] at this
+    have e' : ("Sdai" : String) = schemaFilePrefix := rfl
+    rw [e'] at this
+    have hm : maxLen = 240 := rfl
+    omega
+
+/-- non-vacuity of the hypotheses above -/
+example : ∃ s : Schema, s.wf ∧ Schema.namesFit s := ⟨{ name := "s", decls := [.type { name := "t", kind := .select_, hasHead := true }] },
+  by intro t ht; simp [Schema.types] at ht; subst ht; decide, by unfold Schema.namesFit; decide⟩
+
 end StepModel.Props.C17
